@@ -209,6 +209,46 @@ def runRequests : List Nat → List Nat → List Nat × List Nat
     let (c2, ds) := runRequests c1 ns
     (c2, if d then n :: ds else ds)
 
+/-! ## `elevation` with the cache directory threaded through the tile loop -/
+
+/-- a tile's name in the cache model: its position in `_tiles` -/
+def tileId (t : Tile) : Nat := tiles.idxOf t
+
+/-- one iteration of `for t in tiles:` with the cache: `dem = SRTM30.get_tile(t)` (download iff
+not cached), then the masked assignment.  State: the array — or the exception that ended the
+loop, after which no further `get_tile` happens —, the cache, the downloads so far in order. -/
+def elevStepC (pix : Tile → Nat → Nat → Int) (latsD lonsD : List Rat) (r' : Rect)
+    (s : Except Err (Array Int) × List Nat × List Nat) (t : Tile) :
+    Except Err (Array Int) × List Nat × List Nat :=
+  match s.1 with
+  | .error _ => s
+  | .ok E =>
+    let g := getTile s.2.1 (tileId t)
+    (elevStep pix latsD lonsD r' E t, g.1, if g.2 then s.2.2 ++ [tileId t] else s.2.2)
+
+/-- `SRTM30.elevation` started on the cache `cache`: result of `elevation`, the cache afterwards
+and the tiles downloaded by this call, in order -/
+def elevationC (cache : List Nat) (pix : Tile → Nat → Nat → Int) (r : Rect) :
+    Except Err (List Rat × List Rat × Array Int) × List Nat × List Nat :=
+  let (latsD, lonsD) := nativeGrids r
+  match listMin latsD, listMax latsD, listMin lonsD, listMax lonsD with
+  | some la, some lb, some lo, some lp =>
+    let r' : Rect := ⟨la - (1/2) * dlat, lo - (1/2) * dlon, lb + (1/2) * dlat, lp + (1/2) * dlon⟩
+    let E0 : Array Int := Array.replicate (latsD.length * lonsD.length) 0
+    let res := (getTiles r').foldl (elevStepC pix latsD lonsD r') (.ok E0, cache, [])
+    (match res.1 with
+      | .ok E => .ok (latsD, lonsD, E)
+      | .error e => .error e, res.2.1, res.2.2)
+  | _, _, _, _ => (.error .valueError, cache, [])
+
+/-- a sequence of `elevation` calls on one cache directory: final cache and all downloads -/
+def runCalls (pix : Tile → Nat → Nat → Int) : List Nat → List Rect → List Nat × List Nat
+  | cache, [] => (cache, [])
+  | cache, r :: rs =>
+    let x := elevationC cache pix r
+    let y := runCalls pix x.2.1 rs
+    (y.1, x.2.2 ++ y.2)
+
 /-! ## the global lattice (used by the driver's synthetic tiles and by the theorems) -/
 
 /-- 0-based global row of row `r` of tile `t` (rows counted from 90° N) -/
